@@ -6,7 +6,7 @@ use crate::langs::LangId;
 use crate::tm::*;
 use std::sync::Arc;
 
-fn run(c: &Hist, obs: &mut Obs) -> Result<(), String> {
+pub fn run_case(c: &Hist, obs: &mut Obs) -> Result<(), String> {
     run_closure(c, Dir::Sound, obs)
 }
 
@@ -187,7 +187,7 @@ pub fn property(tier: Tier) -> Property {
         id: "C01", scale: tier.pick(5, 2),
         stages: stages(
             tier,
-            run,
+            run_case,
             "histories of add_expr/union built from recipes (unrelated / permuted copy / renamed copy / context around renamed copy / reordered leaves / existing terms); non-trivial = at least one effective union and at least one queried pair that both sides report unequal after it; distinct by rendered history",
         ),
         assumptions: vec![
